@@ -1,4 +1,6 @@
 """C12 - nuclear target = isospin rotation of u and d: pairs of runs differing only in TargetDIS."""
+import zlib
+
 import numpy as np
 
 from .. import cards, run
@@ -96,6 +98,9 @@ def run_case(case):
         return cards.observables({name: pts}, xgrid=g["xgrid"], deg=g["deg"], is_log=g["is_log"], **o)
 
     target = case["target"]
+    if isinstance(target, dict) and zlib.crc32(case["id"].encode()) % 2:
+        # a mapping has no order: cards that went through yaml.dump (sorted keys) list A before Z
+        target = {"A": target["A"], "Z": target["Z"]}
     outp = run.run(th, mkobs("proton"))
     outt = run.run(th, mkobs(target))
     Z, A = TABLE[target] if isinstance(target, str) else (target["Z"], target["A"])
